@@ -2,10 +2,13 @@ package rules
 
 import (
 	"fmt"
+	"go/constant"
 	"go/token"
 	"go/types"
 	"math"
+	"reflect"
 	"sort"
+	"strconv"
 	"strings"
 
 	"adgverif/an"
@@ -28,7 +31,7 @@ func init() {
 				"R5: the conversions that feed the servers, the cache and the connection limiter copy each validated setting into the constructor field of the same meaning (a wrong-field copy would put an unvalidated value where a validated one is assumed).",
 			NotCovered: "hazards other than the recognised ones (non-positive quantities, family bounds, division by zero); validation " +
 				"of lists, URLs and cross-references between sections; the environment variables.",
-			Rules: map[string]string{"C20-R21": "every key path of the documented sample configuration config.dist.yaml is named by a yaml tag reachable from cmd.configuration (types that decode themselves, foreign types and maps are leaves): no documented setting is silently ignored", "C20-R20": "cmd.Main validates the configuration before anything that is documented to need a valid one (validateFromValidConfig) reads it", "C20-R18": "tlsConfig.validate: an absent section exactly when no server needs TLS; a present one needs at least one certificate, valid certificates and valid wildcards", "C20-R19": "builder.initGRPCMetrics creates the gRPC metrics exactly when profiles, the DNS-check key-value store or the allowlist use the protobuf backend (their clients get the field as an interface value)", "C20-R17": "validateDNSCrypt accepts exactly the configurations with provider name, both keys and one of the two implemented encryption schemes", "C20-R16": "a duration setting for which validation accepts zero reaches context.WithTimeout only behind a comparison with zero (a zero timeout is an expired context, not no timeout)", "C20-R15": "a configuration section whose validate accepts a nil receiver is read only after a nil test (receiver in its own methods, loaded pointer elsewhere in cmd)", "C20-R14": "allocations sized by a configuration setting: the setting has an upper bound in validation (known findings: the rate-limit counts and the TCP pipeline count have none)", "C20-RC": "class rules (error chains, shadowed results, character classes, crossed arguments, pool constructors, array pools, loop completeness, loop-carried buffers, replacing setters, complete clones, Grow arithmetic, pooled-buffer escape, sorted searches, fresh decode targets, per-iteration objects, whole-message copies, codec guards) over the packages this property rests on", "C20-R13": "server.bindData: interface bindings without an interface-listener manager are rejected with an error", "C20-R12": "cacheConfig.toInternal: cache type none exactly when size is 0; dnssvc.newListenConfig wraps a listen configuration with the connection limiter only when there is one", "C20-R11": "newServerDNS accepts exactly the documented idle-timeout interval [0, MaxTCPIdleTimeout] (interval derived from the edges into the panic)", "C20-R1": "zero / negative rejection of every numeric setting", "C20-R2": "subnet key length family bounds",
+			Rules: map[string]string{"C20-R23": "every switch over check.kv.type that treats an unknown value as a programmer error (panic / ErrBadEnumValue) has a case for every value that remoteKVConfig.validate accepts (backend, cache, consul, redis)", "C20-R22": "a rejected value is reported under its own name: the property name given to newNotPositiveError, newNegativeError, validatePositive and validateProp is the yaml (or env) tag of the field whose value or validator is passed with it", "C20-R21": "every key path of the documented sample configuration config.dist.yaml is named by a yaml tag reachable from cmd.configuration (types that decode themselves, foreign types and maps are leaves): no documented setting is silently ignored", "C20-R20": "cmd.Main validates the configuration before anything that is documented to need a valid one (validateFromValidConfig) reads it", "C20-R18": "tlsConfig.validate: an absent section exactly when no server needs TLS; a present one needs at least one certificate, valid certificates and valid wildcards", "C20-R19": "builder.initGRPCMetrics creates the gRPC metrics exactly when profiles, the DNS-check key-value store or the allowlist use the protobuf backend (their clients get the field as an interface value)", "C20-R17": "validateDNSCrypt accepts exactly the configurations with provider name, both keys and one of the two implemented encryption schemes", "C20-R16": "a duration setting for which validation accepts zero reaches context.WithTimeout only behind a comparison with zero (a zero timeout is an expired context, not no timeout)", "C20-R15": "a configuration section whose validate accepts a nil receiver is read only after a nil test (receiver in its own methods, loaded pointer elsewhere in cmd)", "C20-R14": "allocations sized by a configuration setting: the setting has an upper bound in validation (known findings: the rate-limit counts and the TCP pipeline count have none)", "C20-RC": "class rules (error chains, shadowed results, character classes, crossed arguments, pool constructors, array pools, loop completeness, loop-carried buffers, replacing setters, complete clones, Grow arithmetic, pooled-buffer escape, sorted searches, fresh decode targets, per-iteration objects, whole-message copies, codec guards) over the packages this property rests on", "C20-R13": "server.bindData: interface bindings without an interface-listener manager are rejected with an error", "C20-R12": "cacheConfig.toInternal: cache type none exactly when size is 0; dnssvc.newListenConfig wraps a listen configuration with the connection limiter only when there is one", "C20-R11": "newServerDNS accepts exactly the documented idle-timeout interval [0, MaxTCPIdleTimeout] (interval derived from the edges into the panic)", "C20-R1": "zero / negative rejection of every numeric setting", "C20-R2": "subnet key length family bounds",
 				"C20-R3": "section table completeness", "C20-R4": "divisor provenance", "C20-R5": "validated settings are copied into the constructor fields of the same meaning",
 				"C20-R8": "builder flags computed over all server groups accumulate (a later group cannot switch off what an earlier group needs, e.g. the profile database)",
 				"C20-R6": "DDR record validation: DoH port needs a path, hints must be of their address family"},
@@ -178,6 +181,14 @@ var c20Skip = map[string]string{
 }
 
 func runC20(c *an.Ctx) {
+	// ---- R23: the uses of an enumerated setting know every value its validation accepts
+	if n := sharedEnumSwitchesAgree(c, "C20-R23", "github.com/AdguardTeam/AdGuardDNS/internal/cmd", "kvMode", "cmd.(*remoteKVConfig).validate"); n < 2 {
+		c.Und("C20-R23", "switches over check.kv.type", token.NoPos, "only %d strict switches over the kvMode constants found (newRemoteKV and newRemoveKVPrefix confirmed by reading)", n)
+	}
+	// ---- R22: validation errors carry the name of the offending property
+	if n := c20ErrorNames(c, "C20-R22"); n < 50 {
+		c.Und("C20-R22", "names in validation errors", token.NoPos, "only %d named validation calls with a field value found in package cmd (about 60 confirmed by reading)", n)
+	}
 	// ---- R21: the documented settings are read by the configuration structure
 	if n := sharedDistConfigKeys(c, "C20-R21"); n < 150 {
 		c.Und("C20-R21", "keys of config.dist.yaml", token.NoPos, "only %d key paths examined", n)
@@ -1440,4 +1451,90 @@ func c20ValidateFirst(c *an.Ctx, rule string) {
 	}
 	c.Check(len(users) > 0 && bad == "", rule, key, fn.Pos(), fmt.Sprintf("%d users of a valid configuration, each after validate", len(users)),
 		bad+": a configuration file without one of the sections it reads makes start-up end in a nil dereference instead of an error that names the property")
+}
+
+// c20ErrorNames: "a rejected configuration is reported with the name of the
+// offending property".  The helpers that build those reports take the name as a
+// string next to the value (or the validator method) of a field; the name must
+// be the yaml tag (env tag for the environment) of that very field.  Returns the
+// number of calls whose value could be traced to a tagged field.
+func c20ErrorNames(c *an.Ctx, rule string) (sites int) {
+	tagOf := func(fa *ssa.FieldAddr) (tag, field string) {
+		st, ok := fa.X.Type().Underlying().(*types.Pointer).Elem().Underlying().(*types.Struct)
+		if !ok {
+			return "", ""
+		}
+		t := reflect.StructTag(st.Tag(fa.Field))
+		name, _, _ := strings.Cut(t.Get("yaml"), ",")
+		if name == "" {
+			name, _, _ = strings.Cut(t.Get("env"), ",")
+		}
+		return name, st.Field(fa.Field).Name()
+	}
+	// fieldOfValue follows conversions and loads back to the field a value was read from
+	var fieldOfValue func(v ssa.Value, depth int) *ssa.FieldAddr
+	fieldOfValue = func(v ssa.Value, depth int) *ssa.FieldAddr {
+		if depth > 6 {
+			return nil
+		}
+		switch x := v.(type) {
+		case *ssa.MakeInterface:
+			return fieldOfValue(x.X, depth+1)
+		case *ssa.Convert:
+			return fieldOfValue(x.X, depth+1)
+		case *ssa.ChangeType:
+			return fieldOfValue(x.X, depth+1)
+		case *ssa.UnOp:
+			if x.Op == token.MUL {
+				if fa, ok := x.X.(*ssa.FieldAddr); ok {
+					return fa
+				}
+			}
+		case *ssa.FieldAddr:
+			return x
+		case *ssa.MakeClosure:
+			// a bound method value c.X.validate: the receiver is the first binding
+			if len(x.Bindings) == 1 {
+				return fieldOfValue(x.Bindings[0], depth+1)
+			}
+		}
+		return nil
+	}
+	for _, fn := range c.AllFns {
+		k := an.FnKey(fn)
+		if fn.Blocks == nil || c.IsTestFile(fn.Pos()) || !strings.HasPrefix(k, "cmd.") {
+			continue
+		}
+		perName := map[string]int{}
+		for _, call := range an.Calls(fn) {
+			callee := an.StaticCallee(call)
+			if callee == nil || len(call.Common().Args) < 2 {
+				continue
+			}
+			cn := callee.Name()
+			if !(strings.HasPrefix(cn, "newNotPositiveError") || strings.HasPrefix(cn, "newNegativeError") || strings.HasPrefix(cn, "validatePositive") || cn == "validateProp") {
+				continue
+			}
+			nameK, ok := call.Common().Args[0].(*ssa.Const)
+			if !ok || nameK.Value == nil || nameK.Value.Kind() != constant.String {
+				continue
+			}
+			name := constant.StringVal(nameK.Value)
+			fa := fieldOfValue(call.Common().Args[1], 0)
+			if fa == nil {
+				continue
+			}
+			tag, field := tagOf(fa)
+			if tag == "" {
+				continue
+			}
+			sites++
+			c.Analysed(k)
+			perName[field]++
+			c.Check(name == tag, rule, fmt.Sprintf("%s: the report about field %s (%d) names its property", k, field, perName[field]), call.Pos(),
+				"name "+strconv.Quote(name)+" is the field's tag",
+				fmt.Sprintf("the value of field %s (property %q) is reported under the name %q: the operator is pointed at a property that does not exist or at another one", field, tag, name))
+		}
+	}
+	return sites
 }
